@@ -11,6 +11,7 @@ package py
 
 import (
 	"fmt"
+	"runtime"
 )
 
 // Types for methods
@@ -133,7 +134,24 @@ func (m *Method) Internal() InternalMethod {
 }
 
 // Call the method with the given arguments
-func (m *Method) Call(self Object, args Tuple) (Object, error) {
+// typeAssertionToError turns a failed Go type assertion inside a method
+// implemented in Go into TypeError.  The methods of the built-in types
+// take the Go type of their receiver (and of some arguments) for
+// granted, which does not hold for list.append called on an instance
+// of a Python subclass of list, say: without this the panic runs
+// through the VM into the host program.
+func (m *Method) typeAssertionToError(err *error) {
+	if r := recover(); r != nil {
+		if tae, ok := r.(*runtime.TypeAssertionError); ok {
+			*err = ExceptionNewf(TypeError, "%s() got an object of a type it cannot work with: %v", m.Name, tae)
+			return
+		}
+		panic(r)
+	}
+}
+
+func (m *Method) Call(self Object, args Tuple) (res Object, err error) {
+	defer m.typeAssertionToError(&err)
 	switch f := m.method.(type) {
 	case func(self Object, args Tuple) (Object, error):
 		return f(self, args)
@@ -162,7 +180,8 @@ func (m *Method) internalCallError() error {
 }
 
 // Call the method with the given arguments
-func (m *Method) CallWithKeywords(self Object, args Tuple, kwargs StringDict) (Object, error) {
+func (m *Method) CallWithKeywords(self Object, args Tuple, kwargs StringDict) (res Object, err error) {
+	defer m.typeAssertionToError(&err)
 	if len(kwargs) == 0 {
 		return m.Call(self, args)
 	}
